@@ -1,0 +1,33 @@
+//go:build verif
+
+package filesystem
+
+import (
+	"sync/atomic"
+)
+
+// verifFaultHook holds the fault-injection callback installed by the
+// verification harness (nil when none is installed).
+var verifFaultHook atomic.Pointer[func(operation, name string) error]
+
+// VerifSetFaultHook installs (or, with nil, removes) a callback that is invoked
+// at the start of each Directory operation and of Rename with the operation
+// kind ("mkdir", "mktemp", "symlink", "chmod", "opendir", "openfile",
+// "readdir", "readlink", "lstat", "rmdir", "unlink", "rename") and the leaf
+// name it applies to. A non-nil result is returned to the caller in place of
+// performing the operation. It exists only in builds with the verif tag.
+func VerifSetFaultHook(hook func(operation, name string) error) {
+	if hook == nil {
+		verifFaultHook.Store(nil)
+	} else {
+		verifFaultHook.Store(&hook)
+	}
+}
+
+// verifFault invokes the installed fault hook, if any.
+func verifFault(operation, name string) error {
+	if hook := verifFaultHook.Load(); hook != nil {
+		return (*hook)(operation, name)
+	}
+	return nil
+}
